@@ -46,6 +46,12 @@ def foreign_modules():
 def foreign_case(ctx, name, idx):
     """Run case ``idx`` of another property's generator with a muted ctx: only our monitors judge."""
     mod = importlib.import_module("checks." + name)
+    # spread the few cases we can afford over the whole plan of the foreign generator (its families are laid out by index)
+    try:
+        n = int(mod.plan(ctx.tier)["cases"])
+        idx = (idx * 2654435761 + 40503 * int(str(ctx.seed), 10)) % n if n > 0 else idx
+    except Exception:
+        pass
     sub = H.Ctx(mod.PROP, ctx.tier, ctx.seed, mute=True)
     sub.idx = idx
     try:
